@@ -105,7 +105,7 @@ def main():
     hooks = [l.split()[0] for l in hook_commits if "verif hooks" in l]
     m = {
         "version": 1,
-        "setup_cmd": "cd mc && CARGO_NET_OFFLINE=true cargo build --workspace --bins 2>&1 | tail -3",
+        "setup_cmd": "tools/instrument.sh && cd mc && CARGO_NET_OFFLINE=true cargo build --workspace --bins 2>&1 | tail -3 && cd c17s && CARGO_NET_OFFLINE=true cargo build 2>&1 | tail -2",
         "hooks": {
             "guard": "--cfg ndarray_interp_verif",
             "enable": "rustflags = [\"--cfg\", \"ndarray_interp_verif\"] in /verif/mc/.cargo/config.toml (the harness depends on /repo by path)",
